@@ -8,6 +8,7 @@
 //!   {"op":"create","r":"A","e":1,"name":"n1","kind":"person"|"group"}
 //!   {"op":"setdn","r":"A","e":1,"v":"d2"}          displayname / description (last-writer-wins attribute)
 //!   {"op":"rename","r":"A","e":1,"name":"n2"}       name (unique attribute)
+//!   {"op":"cleardn","r":"A","e":1}                    purge of that attribute (the entry keeps a change id for it)
 //!   {"op":"addmem","r":"A","g":5,"m":1} / "delmem"  group member (reference set)
 //!   {"op":"addses","r":"A","e":1,"sid":1} / "revses" login session (mergeable valueset)
 //!   {"op":"delete"|"revive","r":"A","e":1}
@@ -280,6 +281,11 @@ async fn step(w: &mut World, op: &J) -> J {
                 wr.internal_modify(&uf(e), &ModifyList::new_purge_and_set(Attribute::Description, Value::new_utf8s(&v)))
             }).await)
         }
+        "cleardn" => {
+            json!(w.local(r.expect("r"), move |wr| {
+                wr.internal_modify(&uf(e), &ModifyList::new_purge(Attribute::Description))
+            }).await)
+        }
         "rename" => {
             let v = op["name"].as_str().unwrap_or("n1").to_string();
             json!(w.local(r.expect("r"), move |wr| {
@@ -490,6 +496,39 @@ fn gen_conflict_pattern(rng: &mut Rng, n: usize) -> Vec<J> {
     v
 }
 
+/// Attribute presence races (merge_state arms where one side no longer has the attribute): an attribute is set /
+/// extended on one replica and emptied on another (purge of the description, removal of a group's last member), the
+/// later write on either side, the two exchange directions in either order, then a full mesh.
+fn gen_attr_race_pattern(rng: &mut Rng, n: usize) -> Vec<J> {
+    let mut v = vec![json!({"op":"init","n":n})];
+    v.push(json!({"op":"create","r":"A","e":1,"name":"p1","kind":"person"}));
+    v.push(json!({"op":"create","r":"A","e":2,"name":"p2","kind":"person"}));
+    v.push(json!({"op":"create","r":"A","e":5,"name":"g5","kind":"group"}));
+    v.push(json!({"op":"addmem","r":"A","g":5,"m":1}));
+    if rng.chance(1, 2) { v.push(json!({"op":"setdn","r":"A","e":1,"v":"d1"})); }
+    v.push(json!({"op":"mesh"}));
+    let a = NAMES[rng.below(n as u64) as usize];
+    let mut b = NAMES[rng.below(n as u64) as usize];
+    while b == a { b = NAMES[rng.below(n as u64) as usize]; }
+    let (keep, empty) = if rng.chance(1, 2) {
+        (json!({"op":"setdn","r":a,"e":1,"v":"d2"}), json!({"op":"cleardn","r":b,"e":1}))
+    } else {
+        (json!({"op":"addmem","r":a,"g":5,"m":2}), json!({"op":"delmem","r":b,"g":5,"m":1}))
+    };
+    // which write is the later one
+    if rng.chance(1, 2) { v.push(keep); v.push(empty); } else { v.push(empty); v.push(keep); }
+    if rng.chance(1, 4) { v.push(json!({"op":"setdn","r":a,"e":2,"v":"d3"})); }
+    if rng.chance(1, 2) {
+        v.push(json!({"op":"repl","from":a,"to":b}));
+        v.push(json!({"op":"repl","from":b,"to":a}));
+    } else {
+        v.push(json!({"op":"repl","from":b,"to":a}));
+        v.push(json!({"op":"repl","from":a,"to":b}));
+    }
+    v.push(json!({"op":"mesh"}));
+    v
+}
+
 /// seeded random script
 fn gen_script(rng: &mut Rng, n: usize, len: usize, mode: &str) -> Vec<J> {
     let mut v = vec![json!({"op":"init","n":n})];
@@ -592,6 +631,11 @@ pub fn run(o: &Opts) -> i32 {
             scripts.extend(gen_lag_pattern(&mut rng, n));
         } else {
             scripts.extend(gen_conflict_pattern(&mut rng, n));
+        }
+    }
+    if mode != "lifecycle" {
+        for h in 0..o.u64("patterns", 0) {
+            scripts.extend(gen_attr_race_pattern(&mut rng, if h % 4 == 3 { 3 } else { 2 }));
         }
     }
     rt.block_on(async {
